@@ -509,6 +509,12 @@ var c01Resource = []c01Res{
 		files["/main.tpl"] = "{% extends \"/t300.tpl\" %}"
 		return files
 	}, nil},
+	{"block-super-cycle", func() map[string]string {
+		return map[string]string{"/main.tpl": "{% extends \"/base.tpl\" %}{% block b %}{% block a %}{{ block.Super }}{% endblock %}{% endblock %}", "/base.tpl": "{% block a %}{% block b %}b0{% endblock %}{% endblock %}"}
+	}, nil},
+	{"block-super-cycle-in-loop", func() map[string]string {
+		return map[string]string{"/main.tpl": "{% extends \"/base.tpl\" %}{% block b %}{% for i in z_two %}{% block a %}{{ block.Super }}{% endblock %}{% endfor %}{% endblock %}", "/base.tpl": "{% block a %}{% for j in z_two %}{% block b %}b0{% endblock %}{% endfor %}{% endblock %}"}
+	}, pongo2.Context{"z_two": []int{1, 2}}},
 	{"big-lorem", func() map[string]string {
 		return map[string]string{"/main.tpl": "{% lorem 100001 w %}{% lorem 99999999999 p %}"}
 	}, nil},
@@ -558,7 +564,7 @@ func init() {
 		CaseTimeout: 40,
 		Rule: "four workloads in crash-isolated worker processes (panic => violation via recover, process death and hangs via the driver's progress log and watchdogs): " +
 			"(1) complete sweeps: every registered filter (from the verif hook) x every zoo value (about 100 Go values: nil, strings incl. invalid UTF-8, every int/uint/float kind with extremes/NaN/Inf, slices, arrays, maps with string/int/float/bool/named keys, structs with unexported and embedded fields, pointers incl. typed nil, Stringers, time, errors, *Value, functions of accepted and rejected shapes) x 35 parameters through ApplyFilter and {{ v|f:p }}; every zoo value x every resolver step x (quick: a seed-dependent 1/20, thorough: every) second step; 80 tag/operator forms x every zoo value in the argument slot; " +
-			"(2) grammar-generated programs over all tags/filters/operators with loader files, 3 contexts, TrimBlocks/LStripBlocks settings, the four Execute entry points; (3) byte-level mutations of the repository's fixtures and of generated programs; (4) 38 resource shapes (deep nesting, long chains, every macro recursion route, cyclic include/extends/import/ssi graphs). " +
+			"(2) grammar-generated programs over all tags/filters/operators with loader files, 3 contexts, TrimBlocks/LStripBlocks settings, the four Execute entry points; (3) byte-level mutations of the repository's fixtures and of generated programs; (4) 40 resource shapes (deep nesting, long chains, every macro recursion route, cyclic include/extends/import/ssi graphs). " +
 			"Oracle: exactly one of template/error, exactly one of output/error, no panic, no process death, every case finishes within the watchdog. distinct_nontrivial = distinct sweep cells, compiled programs and byte inputs.",
 		MinNontriv:  5000,
 		Assumptions: []string{"context functions and Stringers of the harness are total", "Must*, NewSet without loaders and Render* on malformed sources are documented to panic and are not exercised"},
